@@ -18,7 +18,7 @@ ASSUMPTIONS = [
     "'below a metadata element' = proper descendants of a node named metadata; the metadata node itself is judged",
     "replacement of metadata content keeps the class 'at most one child' / 'more than one child'",
 ]
-REQUIRED = ["trees", "trees_ge2_invalid_nodes", "trees_invalid_below_metadata", "metamorphic_reruns", "trace_checked",
+REQUIRED = ["trees_with_more_than_5000_errors", "trees_with_repeated_id_strings", "trees", "trees_ge2_invalid_nodes", "trees_invalid_below_metadata", "metamorphic_reruns", "trace_checked",
             "failfast_ok_trees", "failfast_failing_trees"]
 EXHAUSTIVE = {"quick": False, "thorough": False}
 
@@ -275,6 +275,23 @@ def run(ctx, params):
     for label, t in anytrees.allowed_unknown_cases(gen):
         judge(ctx, t, "allowed-but-unknown child " + label)
         emlkit.discard(t)
+    # a very wide table with thousands of stub attributes: many thousands of errors, none of them may be dropped
+    wide = Node("attributeList")
+    for k in range(2200 if ctx.tier == "quick" else 9000):
+        a = Node("attribute")
+        a.add_child(Node("attributeName"))
+        wide.add_child(a)
+    ctx.case(judge, ctx, wide, "attribute list with thousands of invalid attributes", seconds=300.0)
+    ctx.count("trees_with_more_than_5000_errors")
+    emlkit.discard(wide)
+    # trees rebuilt with id strings repeated along paths and across branches (every node still its own object)
+    for i in range(max(20, params["planted"] // 20)):
+        t, log = planted(rng, gen)
+        t2 = anytrees.with_repeated_ids(rng, t, count=rng.choice([1, 3, 8]))
+        emlkit.discard(t)
+        judge(ctx, t2, "planted, ids repeated", log)
+        ctx.count("trees_with_repeated_id_strings")
+        emlkit.discard(t2)
     for i in range(params["freeform"]):
         t = anytrees.freeform(rng, gen, rng.choice([2, 5, 10, 30, 80]))
         if rng.random() < 0.3:
@@ -291,7 +308,7 @@ def run(ctx, params):
 
 
 def replay(ctx, witness):
-    t = snapshot.from_plain(Node, witness["tree"])
+    t = snapshot.from_plain(Node, witness["tree"], fresh_ids=False)
     judge(ctx, t, witness.get("origin", "replay"), witness.get("mutations"))
     ctx.distinct(1)
     ctx.distinct(2)
